@@ -37,13 +37,17 @@ EpFamily ==
       r == IF c = "w" THEN 4 ELSE 3                 \* rank index of both pawns
       capt == Sq(fg[1], r)  vict == Sq(fg[2], r)
       ep == Sq(fg[2], r + Fwd(c))
+      \* optionally a second capturer on the other side of the pawn that just double-stepped
+      f2 == fg[2] + (fg[2] - fg[1])
+      seconds == IF f2 \in 0..7 THEN {0, Sq(f2, r)} ELSE {0}
       b0 == Put(Put(EmptyBoard, capt, Mk(c, "P")), vict, Mk(Other(c), "P"))
       sliders == {"."} \cup { Mk(Other(c), k) : k \in {"R", "B", "Q"} }
       farKings == IF c = "w" THEN {57, 61, 64} ELSE {1, 5, 8}
-  IN { Pos(Put(Put(IF sl = "." THEN b0 ELSE Put(b0, ssq, sl), ok, Mk(c, "K")), ek, Mk(Other(c), "K")), c, {}, ep) :
-         ok \in Squares, ek \in farKings, sl \in sliders, ssq \in Squares }
-EpOk(p) == Cardinality({ s \in Squares : p.board[s] # Empty }) \in {4, 5} /\ CountPc(p.board, "K") = 1 /\ CountPc(p.board, "k") = 1
-           /\ CountPc(p.board, "P") = 1 /\ CountPc(p.board, "p") = 1
+  IN { Pos(Put(Put(IF sl = "." THEN (IF sec = 0 THEN b0 ELSE Put(b0, sec, Mk(c, "P"))) ELSE Put(IF sec = 0 THEN b0 ELSE Put(b0, sec, Mk(c, "P")), ssq, sl), ok, Mk(c, "K")), ek, Mk(Other(c), "K")), c, {}, ep) :
+         ok \in Squares, ek \in farKings, sl \in sliders, ssq \in Squares, sec \in seconds }
+EpOk(p) == Cardinality({ s \in Squares : p.board[s] # Empty }) \in {4, 5, 6} /\ CountPc(p.board, "K") = 1 /\ CountPc(p.board, "k") = 1
+           /\ CountPc(p.board, Mk(p.stm, "P")) \in {1, 2} /\ CountPc(p.board, Mk(Other(p.stm), "P")) = 1
+           /\ Cardinality({ s \in Squares : p.board[s] # Empty }) = 2 + CountPc(p.board, "P") + CountPc(p.board, "p") + Cardinality({ s \in Squares : p.board[s] \in {"R", "B", "Q", "r", "b", "q"} })
 
 \* ---- castling: shard = 0..9 = colour(2) x enemy piece kind(5) ----
 CastleFamily ==
